@@ -2,9 +2,14 @@ package checks
 
 // C28: the interpreter never panics.
 //
-// Three bounded-exhaustive spaces, all executed in child processes (see
+// Bounded-exhaustive spaces, all executed in child processes (see
 // c28_child.go for why):
 //
+//  0. (round 3) two boundary families that come first: every arithmetic
+//     operator x every pair of boundary operands in the evaluating and
+//     consuming contexts (c28_arith.go), and state-establishing preludes x
+//     the names they define x the calls that consult that state
+//     (c28_state.go);
 //  1. every program of the syntax space (repository test-table literals +
 //     union grammar + layout deviations) and of the interpreter test corpus,
 //     in every variant in which it parses, under four variable environments;
